@@ -208,6 +208,96 @@ namespace xv
                 x &= M;
             out.push_back(mk("Ls x exponents", { V, Alpha::of(e).odd() }, 1));
         }
+        else if (key == "conv")
+        {
+            // keyed by the SOURCE type of the conversion
+            const int ft = sig.in_t[0];
+            const int fbits = xv_type_size[ft] * 8;
+            const int FML = max_lanes(ft) > ML ? max_lanes(ft) : ML;
+            if (is_int_type(ft) && fbits <= 16)
+                out.push_back(mk("ALL x lanes", { Alpha::ALL(fbits) }, FML));
+            else if (is_int_type(ft))
+            {
+                std::vector<uint64_t> v = value_alpha(ft, T, false).v;
+                const uint64_t M = fbits == 64 ? ~0ull : 0xFFFFFFFFull;
+                // windows around the magnitudes where int->float rounding and the magic-number emulations change regime
+                for (int k : { 23, 24, 25, 31, 32, 52, 53, 54, 62, 63 })
+                {
+                    if (k >= fbits)
+                        continue;
+                    for (int d = -4; d <= 4; ++d)
+                    {
+                        v.push_back(((1ull << k) + (uint64_t)(int64_t)d) & M);
+                        v.push_back((0 - (1ull << k) + (uint64_t)(int64_t)d) & M);
+                    }
+                }
+                // half-way cases of int -> float (p = 24) and int -> double (p = 53): 2^k + 2^(k-p) +- 1
+                for (int p : { 24, 53 })
+                    for (int k = p; k < fbits; ++k)
+                        for (int d = -1; d <= 1; ++d)
+                        {
+                            uint64_t h = (1ull << k) + (1ull << (k - p)) + (uint64_t)(int64_t)d;
+                            v.push_back(h & M);
+                            v.push_back((0 - h) & M);
+                            uint64_t h3 = (1ull << k) + 3 * (1ull << (k - p)) + (uint64_t)(int64_t)d;
+                            v.push_back(h3 & M);
+                        }
+                dedup_keep_order(v);
+                out.push_back(mk("L + windows + half-way cases x lanes", { Alpha::of(v) }, FML));
+                if (fbits == 32)
+                {
+                    if (T.thorough)
+                        out.push_back(mk("ALL32", { Alpha::ALL(32) }, 1));
+                    else
+                    {
+                        Alpha s = Alpha::ALL(32);
+                        s.step = 251;
+                        out.push_back(mk("every 251st 32-bit pattern", { s }, 1));
+                    }
+                }
+            }
+            else
+            {
+                std::vector<uint64_t> v = value_alpha(ft, T, false).v;
+                // k + {0, +-0.5, +-(0.5 -+ ulp)} near the integer-range boundaries
+                for (int k : { 7, 8, 15, 16, 23, 24, 31, 32, 52, 53, 63, 64 })
+                    for (double off : { 0.0, 0.5, -0.5, 1.0, -1.0 })
+                    {
+                        double c = std::ldexp(1.0, k) + off;
+                        if (ft == XV_F32)
+                        {
+                            window<float>(v, (float)c, 2);
+                        }
+                        else
+                            window<double>(v, c, 2);
+                    }
+                dedup_keep_order(v);
+                out.push_back(mk("FL + integer-boundary windows x lanes", { Alpha::of(v) }, FML));
+                if (ft == XV_F32)
+                {
+                    if (T.thorough)
+                        out.push_back(mk("ALL32", { Alpha::ALL(32) }, 1));
+                    else
+                    {
+                        Alpha s = Alpha::ALL(32);
+                        s.step = 251;
+                        out.push_back(mk("every 251st float32 pattern", { s }, 1));
+                    }
+                }
+                else
+                    out.push_back(mk("BINADES64 x MANT", { binades<double>(T.thorough ? 256 : 32, T.seed).odd() }, 1));
+            }
+        }
+        else if (key == "bytes")
+        {
+            out.push_back(mk("ALL8 x 64 byte offsets", { Alpha::ALL(8) }, 64));
+            std::vector<uint64_t> v;
+            uint64_t s = T.seed + 99;
+            for (int i = 0; i < 4099; ++i)
+                v.push_back(splitmix64(s) & 0xFF);
+            Alpha a = Alpha::of(v);
+            out.push_back(mk("4099 seed bytes", { a }, 1));
+        }
         else if (key == "mask1")
         {
             SubSpace s;
@@ -251,6 +341,61 @@ namespace xv
             exit(2);
         }
         return out;
+    }
+
+    // lane-aware witness space for the reductions (C09) of element type t on batches of L lanes
+    inline SubSpace make_witness_space(int t, int L, const Tier& T)
+    {
+        SubSpace s;
+        s.label = "witness placements, L=" + std::to_string(L);
+        s.al.resize(1);
+        s.witness_L = L;
+        s.witness_type = t;
+        const int bits = xv_type_size[t] * 8;
+        if (is_int_type(t))
+        {
+            const uint64_t M = bits == 64 ? ~0ull : ((1ull << bits) - 1);
+            const uint64_t MIN = 1ull << (bits - 1);
+            s.witness_vals = { 1, M /* -1 or MAX */, MIN - 1, MIN, 1ull << (bits - 2), 7, MIN + 1, M - 1 };
+            s.witness_vals2 = { 1, M, MIN };
+            s.witness_lattice = (bits == 8) ? Alpha::ALL(8).odd().v : int_lattice(bits, T.seed, T.nseed).v;
+        }
+        else
+        {
+            auto f = [&](double d)
+            { return t == XV_F32 ? to_bits<float>((float)d) : to_bits<double>(d); };
+            s.witness_vals = { f(1), f(-1), f(1024), f(-1024), f(0.5), f(-7), f(1e6), f(-0.25) };
+            s.witness_vals2 = { f(1), f(-1), f(512.5) };
+            std::vector<uint64_t> v;
+            for (int k = -40; k <= 40; ++k)
+                v.push_back(f(k * 0.25));
+            for (int k = -12; k <= 20; ++k)
+            {
+                v.push_back(f(std::ldexp(1.0, k)));
+                v.push_back(f(-std::ldexp(1.0, k)));
+                v.push_back(f(std::ldexp(1.0, k) * 1.0000001));
+            }
+            // moderate-magnitude seed values (inexact sums: judged by the (n-1)-rounding bound)
+            uint64_t sd = T.seed * 77 + 5;
+            for (int k = 0; k < 4 * T.nseed; ++k)
+            {
+                uint64_t r = splitmix64(sd);
+                double m = 1.0 + (double)(r >> 12) / (double)(1ull << 52);
+                v.push_back(f(std::ldexp(m, (int)(r % 30) - 10) * ((r >> 40 & 1) ? -1 : 1)));
+            }
+            // extremes for max/min (sums involving them are outside the bound's premise or exact)
+            v.push_back(f(t == XV_F32 ? 3.4028234663852886e38 : 1.7976931348623157e308));
+            v.push_back(f(t == XV_F32 ? -3.4028234663852886e38 : -1.7976931348623157e308));
+            v.push_back(f(t == XV_F32 ? 1.17549435e-38 : 2.2250738585072014e-308));
+            v.push_back(f(0.0));
+            v.push_back(f(-0.0));
+            dedup_keep_order(v);
+            if (v.size() % 2 == 0)
+                v.push_back(v[1]);
+            s.witness_lattice = v;
+        }
+        s.finish();
+        return s;
     }
 
     inline std::vector<long> make_params(int kind, int elem)
@@ -301,6 +446,34 @@ namespace xv
                     exit(2);
                 }
             const std::string& skey = (!is_int_type(sig.elem) && !spec->fp_space.empty()) ? spec->fp_space : spec->space;
+            if (skey == "witness")
+            {
+                // lane-aware: one group per batch size, holding the implementations with that many lanes
+                std::set<int> Ls;
+                for (auto& im : kv.second)
+                    Ls.insert(im.op->lanes);
+                for (int L : Ls)
+                {
+                    std::string gk = skey + "|" + std::to_string(sig.elem) + "|L" + std::to_string(L);
+                    Group*& g = gmap[gk];
+                    if (!g)
+                    {
+                        E.groups.emplace_back(new Group);
+                        g = E.groups.back().get();
+                        g->sig = sig;
+                        g->sp = make_witness_space(sig.elem, L, T);
+                    }
+                    std::unique_ptr<OpInst> oi(new OpInst);
+                    oi->spec = spec;
+                    oi->name = name;
+                    oi->prop = prop;
+                    for (auto& im : kv.second)
+                        if (im.op->lanes == L)
+                            oi->impls.push_back(im);
+                    g->ops.push_back(std::move(oi));
+                }
+                continue;
+            }
             auto spaces = make_spaces(skey, sig, T);
             for (size_t si = 0; si < spaces.size(); ++si)
             {
